@@ -266,6 +266,67 @@ fn item<C: Suite>(ctx: &mut Ctx, n: u16, t: u16, kind: &str, seedk: &str) {
             judge_alteration(ctx, &co, &s3, "cancelling-pair", &msg);
         }
     }
+    // threshold enforcement is unchanged under randomization: on the same material the randomized coordinator gives the
+    // same kind of verdict as the plain one, (a) for a public key package that states a larger threshold than the number
+    // of shares supplied, (b) for t-1 holders who lowered the threshold in their own key packages
+    {
+        use frost_core::keys::{KeyPackage, PublicKeyPackage};
+        let kind_of = |r: &Result<frost_core::Signature<C>, frost_core::Error<C>>| match r {
+            Ok(_) => "Ok".to_string(),
+            Err(e) => err_name(e),
+        };
+        let plain_shares: Option<IdMap<C, _>> = signers.iter().map(|id| C::api_sign(&pkg, &nonces[id], &grp.kps[id]).ok().map(|s| (*id, s))).collect();
+        let raised = PublicKeyPackage::<C>::new(grp.pkp.verifying_shares().clone(), vk, Some(signers.len() as u16 + 1));
+        if let Some(ps) = &plain_shares {
+            for (mk, mname) in [(0, "disabled"), (1, "first"), (2, "all")] {
+                let mode = || match mk { 0 => CheaterDetection::Disabled, 1 => CheaterDetection::FirstCheater, _ => CheaterDetection::AllCheaters };
+                let a = frost_core::aggregate_custom(&pkg, ps, &raised, mode());
+                let b = frost_rerandomized::aggregate_custom(&pkg, &shares, &raised, mode(), &params);
+                if kind_of(&a) != kind_of(&b) || b.is_ok() {
+                    ctx.viol("threshold-enforcement-differs", &format!("stated-threshold-above-share-count/{mname}"), d("plain and randomized aggregate disagree (or accept) when the package states a threshold above the number of shares", json!({"plain": kind_of(&a), "randomized": kind_of(&b)})));
+                }
+                ctx.count("threshold_verdicts");
+            }
+        }
+        if t >= 2 {
+            let k = t as usize - 1;
+            let holders: Vec<Identifier<C>> = signers.iter().take(k).copied().collect();
+            let lying: IdMap<C, KeyPackage<C>> = holders.iter().map(|i| (*i, KeyPackage::new(*i, *grp.kps[i].signing_share(), *grp.kps[i].verifying_share(), vk, k as u16))).collect();
+            let c2: IdMap<C, SigningCommitments<C>> = holders.iter().map(|i| (*i, comms[i])).collect();
+            let pkg2 = SigningPackage::new(c2.clone(), &msg);
+            let pr2 = if explicit { Some(params.clone()) } else { RandomizedParams::<C>::regenerate_from_seed_and_commitments(&vk, &seed, &c2).ok() };
+            let ps: Option<IdMap<C, _>> = holders.iter().map(|i| C::api_sign(&pkg2, &nonces[i], &lying[i]).ok().map(|s| (*i, s))).collect();
+            #[allow(deprecated)]
+            let rs: Option<IdMap<C, _>> = holders
+                .iter()
+                .map(|i| {
+                    let r = if explicit { frost_rerandomized::sign(&pkg2, &nonces[i], &lying[i], *params.randomizer()) } else { frost_rerandomized::sign_with_randomizer_seed(&pkg2, &nonces[i], &lying[i], &seed) };
+                    r.ok().map(|s| (*i, s))
+                })
+                .collect();
+            if let (Some(ps), Some(rs), Some(pr2)) = (ps, rs, pr2) {
+                for (mk, mname) in [(0, "disabled"), (1, "first"), (2, "all")] {
+                let mode = || match mk { 0 => CheaterDetection::Disabled, 1 => CheaterDetection::FirstCheater, _ => CheaterDetection::AllCheaters };
+                    let a = frost_core::aggregate_custom(&pkg2, &ps, &grp.pkp, mode());
+                    let b = frost_rerandomized::aggregate_custom(&pkg2, &rs, &grp.pkp, mode(), &pr2);
+                    if kind_of(&a) != kind_of(&b) || b.is_ok() {
+                        ctx.viol("threshold-enforcement-differs", &format!("fewer-than-threshold-holders/{mname}"), d("plain and randomized aggregate disagree (or accept) for t-1 holders with lowered key packages", json!({"plain": kind_of(&a), "randomized": kind_of(&b)})));
+                    }
+                    ctx.count("threshold_verdicts");
+                }
+            }
+            // an honest participant refuses a package with fewer than t commitments, randomized or not
+            let id = holders[0];
+            #[allow(deprecated)]
+            let b = if explicit { frost_rerandomized::sign(&pkg2, &nonces[&id], &grp.kps[&id], *params.randomizer()) } else { frost_rerandomized::sign_with_randomizer_seed(&pkg2, &nonces[&id], &grp.kps[&id], &seed) };
+            let a = C::api_sign(&pkg2, &nonces[&id], &grp.kps[&id]);
+            let (ka, kb) = (a.as_ref().map(|_| "Ok".to_string()).unwrap_or_else(err_name), b.as_ref().map(|_| "Ok".to_string()).unwrap_or_else(err_name));
+            if ka != kb || b.is_ok() {
+                ctx.viol("threshold-enforcement-differs", "participant", d("plain and randomized sign disagree (or accept) on a package with fewer than t commitments", json!({"plain": ka, "randomized": kb})));
+            }
+            ctx.count("threshold_verdicts");
+        }
+    }
     let _: Option<(Identifier<C>, VerifyingKey<C>)> = None;
     if ctx.samples.is_empty() {
         ctx.sample(json!({"n": n, "t": t, "ids": kind, "randomizer_source": seedk, "seed": hex::encode(&seed[..seed.len().min(64)]), "randomizer": hex::encode(&alpha),
